@@ -7,7 +7,8 @@ Compositional static argument (each clause is a rule here):
        their invariants (who-may-write on MIR), and set_position keeps `total (-)= old; slot = f(new); total (+)= slot`;
  (S1b) whoever swaps an evaluation table re-seats the cached contributions that depend on it before returning;
  (S2)  every caller pairs push and pop on all paths (typestate over the CFG), abort paths only on owned games;
- (S6)  the &self observers reach no mutation; tables never change between a push and its pop.
+ (S6)  the &self observers reach no mutation; tables never change between a push and its pop;
+ (S8)  the king cache's setter and getter agree on the slot of each side (by cases over the two sides).
 Does not decide: the generator invariant (captured_piece = content of `end`) beyond the construction sites.
 """
 from . import core, hir, mir, surgery, pairing
@@ -51,6 +52,8 @@ def run(ctx):
     s1b(ctx, F)
     s2(ctx, F)
     purity(ctx, F)
+    king_cache_accessors(ctx, F)
+    current_state_is_top(ctx, F)
     # S7 = C02.R1-R3: a move list query plays and takes back every move it tests - with a wrong successor (a right that should have
     # been lost, a square left occupied) the list contains moves whose play/take-back does not restore the position
     from . import p02, p17
@@ -436,6 +439,92 @@ def s2(ctx, F):
     ctx.check("C03.S2", "driver-searches-a-clone", pass_clone, fn=d["path"], file=d["file"],
               what="the driver must hand a clone of the caller's game to the search", found=pass_clone)
     ctx.floor("C03.S2", "balanced push/pop pairs", total_pairs, 6)       # 10 on the reference tree; sites may be merged behind one helper or one call
+
+
+def current_state_is_top(ctx, F, rule="C03.M"):
+    """The state every rule calls "current" (`Game::state()`: castling rights, en-passant file, state key) is the entry push stacked
+    last: evaluated on a stack of three distinct entries the accessor yields the third (and `len()` counts the same stack)."""
+    fn = F.fn("chess::Game::state")
+    if not fn.get("hir"):
+        return
+    sym = hir.Sym(hir.Env(fn["hir"], F), F)
+    t = sym(fn["hir"]["body"])
+    STK = ("field", ("var", "self"), "state")
+    if STK not in set(hir.subterms(t)):
+        return          # (the state is kept some other way: not decided here)
+    arr = ("arr", ("var", "s0"), ("var", "s1"), ("var", "s2"))
+    v = hir.fold(hir.fold(t, {STK: arr}), {STK: arr})
+    decided = isinstance(v, tuple) and v[:1] == ("var",) and v[1] in ("s0", "s1", "s2")
+    if decided:
+        ctx.check(rule, "current-state-is-the-entry-stacked-last", v == ("var", "s2"), fn=fn["path"], file=fn["file"], line=fn["span"][0],
+                  what="`Game::state()` does not yield the entry push stacked last: rights and en-passant file of an earlier position "
+                       "are taken for the current ones", expected="the last entry of the stack", found=hir.fmt(t, 120))
+
+
+def king_cache_accessors(ctx, F, rule="C03.S8"):
+    """S8 the king cache is one slot per side and the two accessors agree on which: `set_king_position(p, x)` writes the slot that
+    `get_king_position(p)` reads, with x, the slots of the two sides differ, and the importer fills them in the same order.  Every
+    other rule (push's surgery, the in-check test of the move generator, the table swap) treats the two accessors as an opaque
+    pair and relies on exactly this.  Decided by cases over the two sides."""
+    PL = "chess::Player::"
+    g_fn, s_fn = F.fn("chess::Game::get_king_position"), F.fn("chess::Game::set_king_position")
+    if not g_fn.get("hir") or not s_fn.get("hir"):
+        return
+    def pnames(fn):
+        return [str(p_["pat"].get("name", "")).split("'")[0] for p_ in fn["hir"].get("params", []) if isinstance(p_.get("pat"), dict)]
+    gp, sp = pnames(g_fn), pnames(s_fn)
+    if len(gp) != 2 or len(sp) != 3:
+        return
+    gsym = hir.Sym(hir.Env(g_fn["hir"], F), F)
+    gt = gsym(g_fn["hir"]["body"])
+    reads, writes = {}, {}
+    for pl in ("White", "Black"):
+        v = hir.fold(gt, {("var", gp[1]): ("variant", PL + pl)})
+        if isinstance(v, tuple) and v[:1] == ("index",) and v[1] == ("field", ("var", gp[0]), "king_positions") and v[2][:1] == ("lit",):
+            reads[pl] = v[2][1]
+        else:
+            reads[pl] = hir.fmt(v, 60)
+    ssym = hir.Sym(hir.Env(s_fn["hir"], F), F)
+    sbody = s_fn["hir"]["body"]
+    for pl in ("White", "Black"):
+        ws = []
+        for n, _ in hir.walk(sbody):
+            if n.get("k") not in ("Assign", "AssignOp"):
+                continue
+            c = hir.fold(hir.guards_term(hir.guards_of(n, sbody, ssym) or []), {("var", sp[1]): ("variant", PL + pl)})
+            if c == ("lit", False) or hir.all_leaves_false(c):
+                continue
+            tgt, val = ssym(n["l"]), ssym(n["r"])
+            tgt = hir.fold(tgt, {("var", sp[1]): ("variant", PL + pl)})
+            if isinstance(tgt, tuple) and tgt[:1] == ("index",) and tgt[1] == ("field", ("var", sp[0]), "king_positions") and tgt[2][:1] == ("lit",) \
+                    and n.get("k") == "Assign" and val == ("var", sp[2]):
+                ws.append(tgt[2][1])
+            else:
+                ws.append("%s = %s" % (hir.fmt(tgt, 40), hir.fmt(val, 40)))
+        writes[pl] = ws
+    if not all(isinstance(reads[pl], int) and writes[pl] and all(isinstance(w_, int) for w_ in writes[pl]) for pl in ("White", "Black")):
+        return      # (accessors written some other way than slot-per-side by literal index: not decided here)
+    ok = all(writes[pl] == [reads[pl]] for pl in ("White", "Black")) and reads["White"] != reads["Black"]
+    ctx.check(rule, "king-cache-accessors-agree", ok, fn=s_fn["path"], file=s_fn["file"], line=s_fn["span"][0],
+              what="the king cache's setter and getter do not name the same slot for a side (or both sides share a slot): after a king "
+                   "move the in-check test looks at a square the king is not on",
+              expected="set(p, x): slot[p] = x; get(p): slot[p]; slot[White] != slot[Black]", found={"get reads": reads, "set writes": writes})
+    # the importer fills the slots in the order the getter reads them
+    new = F.fn("chess::Game::new")
+    env = hir.Env(new["hir"], F)
+    symT = hir.Sym(env, F, through=True)
+    for n, _ in hir.walk(new["hir"]["body"]):
+        if n.get("k") == "Struct" and (n["to"].get("path") or "").endswith("chess::Game"):
+            for f_ in n["fields"]:
+                if f_["name"] == "king_positions":
+                    v = symT(f_["e"])
+                    if v[:1] == ("arr",) and len(v) == 3 and all(isinstance(reads[pl], int) and reads[pl] in (0, 1) for pl in reads):
+                        names = [hir.fmt(x, 80) for x in v[1:]]
+                        okl = "white" in names[reads["White"]] and "black" not in names[reads["White"]] and \
+                            "black" in names[reads["Black"]] and "white" not in names[reads["Black"]]
+                        ctx.check(rule, "importer-fills-the-king-cache-in-the-order-the-getter-reads-it", okl, fn=new["path"], file=new["file"],
+                                  line=hir.line(n), what="the imported game's king cache holds the kings in the other order than "
+                                  "get_king_position reads them", found={"literal": names, "get reads": reads})
 
 
 def purity(ctx, F):
